@@ -393,6 +393,14 @@ func (e *Enc) iteVal(c T, a, b Val) Val {
 			// keep a tagged choice
 			return e.fnChoice(c, x, y)
 		}
+		if _, ok := b.(FnSel); ok {
+			return FnSel{C: c, A: a, B: b}
+		}
+	case FnSel:
+		switch b.(type) {
+		case Fn, FnSel:
+			return FnSel{C: c, A: a, B: b}
+		}
 	case Ptr:
 		if y, ok := b.(Ptr); ok {
 			if sameVal(x, y) {
